@@ -6,7 +6,7 @@ HOOKS = {
     "add_only": True,
 }
 ENGINES = [
-    {"name": "benum", "path": "engine/benum", "serves_properties": ["C13", "C14", "C16", "C17", "C18", "C20"],
+    {"name": "benum", "path": "engine/benum", "serves_properties": ["C04", "C10", "C11", "C12", "C13", "C14", "C15", "C16", "C17", "C18", "C20"],
      "kind_free_text": "bounded exhaustive enumeration runtime: rank<->case bijections, 16-way sharding, fork isolation with progress cell, line protocol to the driver"},
     {"name": "vsched", "path": "engine/vsched", "serves_properties": ["C05", "C07", "C19"],
      "kind_free_text": "cooperative scheduler by link-time interposition of pthread mutex/cond/create/join, futex syscall and clock_gettime + stateless DFS explorer with iterative deviation bounding, 16 forked workers sharing a work stack, determinism re-runs, deadlock/livelock/hang detection, replay of recorded choice sequences"},
@@ -17,6 +17,42 @@ NOTES = ("All checks decide by exhaustive enumeration inside stated bounds (see 
          "failed (build or harness error) and is not a verdict.")
 NOT_APPLICABLE = {}
 CHECKS = {
+    "C04": {
+        "engine": "benum", "level": "model_checking",
+        "technique": "explicit-state breadth-first search over builder/buffer operation histories on the real Buffer for every initial capacity 64..640 step 8 x auto_grow {no,yes,internal}, canonical states from the buffer bytes, reference model compared after every operation (ASan, NDEBUG and assert builds, fork isolated)",
+        "text": "Every history up to depth 2 over a 72-operation alphabet (object/changeset/list builders in three call styles with string lengths around every padding boundary, commit, rollback, clear, add_buffer, push_back, add_item, swap, move, set_removed, purge_removed with/without callback) "
+                "and up to depth 3|4|5 over reduced alphabets is executed on real buffers of every capacity 64..640 step 8 in all three growth modes; after every operation the nested chain + committed + uncommitted bytes are walked and compared field by field with a model; "
+                "plus all item sequences x removed masks for purge and all CallbackBuffer histories of length <= 5.",
+        "note": "What purge_removed() does with uncommitted data or with top-level items that are not OSM entities, and the exact capacity after growth, are left open (counted). Histories deeper than the stated bounds are not covered.",
+    },
+    "C10": {
+        "engine": "benum", "level": "exploration",
+        "technique": "exhaustive enumeration of segment arrangements on small lattices (all segment sets, all even-degree subgraphs, multisets, ring-catalogue subsets) x cuttings x member orders x way reversals x roles x affine images through the real Assembler, judged by an exact-integer geometry oracle",
+        "text": "Every set of <= 6|8 of the 36 segments of a 3x3 lattice, every even-degree subgraph of the 4x3 lattice (2^18), every multiset with doubled/tripled segments and every subset of a catalogue of nested/touching rings is realised as OSM ways in several cuttings x member permutations x reversals x role assignments x 3 affine images "
+                "and assembled by the real code; validity, ring closure, even-odd equality, nesting, attachment of inner rings to the innermost enclosing outer ring, orientation and invariance across realisations are checked on every case.",
+        "note": "Inputs needing more than the lattice sizes enumerated, > 20 recursion levels or > 100 touching points are outside the bound; decomposition differences between affine images are only counted.",
+    },
+    "C11": {
+        "engine": "benum", "level": "model_checking",
+        "technique": "explicit-state enumeration of relation/member histories (all relation sets x interest predicates x member-stream subsets x feeding modes) replayed on the real RelationsManager/MultipolygonManager, set-based reference model compared after every handler call, canonical manager states hashed (ASan, NDEBUG and assert builds)",
+        "text": "1..3 relations with member lists of length <= 2|3 over two node, two way and two relation ids (duplicates, shared members, self references) x every new_relation/new_member predicate x every subset of the referenced ids as the sorted member stream x 4 feeding/flush modes x 7 type-flag sets and the multipolygon manager; "
+                "completion exactly once at the last wanted member, member retrieval inside the callback, release afterwards (lookup gives nullptr), incomplete list, not-in-any-relation callbacks and stash size are compared with the model on every step; long families with > 10 000 removals trigger stash collection with live handles.",
+        "note": "Relations of interest without any wanted member and the order of several completions in one step are left open (counted).",
+    },
+    "C12": {
+        "engine": "benum", "level": "model_checking",
+        "technique": "explicit-state search over insertion histories (all sequences of distinct boundary ids up to a length, all permutations around the hooked FlexMem threshold) replayed on every real index type and compared with a std::map on every probe; dump/reload and NodeLocationsForWays sub-spaces enumerated exhaustively",
+        "text": "Every sequence of distinct ids (length <= 4 for in-memory types, <= 2 with expensive ids) over a boundary alphabet is inserted into each of the 8 factory map types, file-based types and FlexMem (forced dense, switching after every step, and with the threshold hooked to 7: all permutations of 7..9 ids) and get()/get_noexcept() are compared with a std::map on 90+ probes; "
+                "dump_as_list/dump_as_array bytes and reloads, and all node streams of NodeLocationsForWays over {+-1,+-2,+-3,big} are compared with the model.",
+        "note": "Dense types are only given ids <= 2^24+2; the real 0xffffff FlexMem threshold is crossed in four orders in the thorough tier only.",
+    },
+    "C15": {
+        "engine": "benum", "level": "model_checking",
+        "technique": "explicit-state breadth-first search over operation histories of IdSetDense/IdSetSmall/nwr_array/RelationsMapStash/ItemStash with canonical states read from private fields, std::set / pair-set / handle-list reference models driven in lock step",
+        "text": "IdSetDense<uint32|uint64> with chunk_bits 1|2|13|22 (set/unset/check_and_set/clear/copy/assign/swap/move, ids around every chunk boundary and the end of the id range), IdSetSmall and nwr_array are explored to a fixed point or depth bound; every add-sequence over ids around 2^32 through each RelationsMapStash index builder; "
+                "ItemStash BFS over item shapes plus long scripted histories making the automatic collection run with thousands of live handles; membership, size, exact ascending iteration, lookups in both directions and bytes behind every live handle are compared in every state.",
+        "note": "IdSetSmall is only demanded exact where its documented precondition (sorted/unique) holds; a stand-alone non-entity item in the stash is outside the domain.",
+    },
     "C20": {
         "engine": "benum", "level": "exploration",
         "technique": "exhaustive enumeration of item sequences x handler lists (template instantiations over 6-16 handler kinds, lengths 1..3|4) x entry points, and of all sorted version histories x buffer splits for the diff iterator, against a callback-sequence model",
